@@ -31,6 +31,9 @@ pub struct C10Sc {
     /// somewhere inside a second, not at its start)
     #[serde(default)]
     pub second_think_ns: u64,
+    /// the first client's session cookie is not a readable session cookie
+    #[serde(default)]
+    pub unreadable_session: bool,
 }
 
 fn generate(rng: &mut Rng) -> C10Sc {
@@ -57,6 +60,25 @@ fn generate(rng: &mut Rng) -> C10Sc {
         client.session_cookie = Some(
             serde_json::to_vec(&json!({"id": uuid_hyph(gen_uuid(rng)), "server_address": "earlier", "server_port": 7, "trace_id": null})).unwrap(),
         );
+    }
+    // the first connection may present a cookie that is not accepted (expired, another secret, another address,
+    // garbage): the player is authenticated afresh and must be issued a new one all the same
+    if intent == 3 && rng.chance(1, 4) {
+        let id = Identity { name: "Stale".into(), uuid: gen_uuid(rng), props: vec![] };
+        let sec = secret.clone().unwrap_or_default();
+        client.auth_cookie = Some(match rng.below(4) {
+            0 => signed_cookie(&sec, &cookie_json(1_700_000_000, "203.0.113.250:4000", &id, None)), // long expired, other address
+            1 => signed_cookie(b"some-other-secret", &cookie_json(1_800_000_000, "203.0.113.250:4000", &id, None)),
+            2 => rng.bytes(40),
+            _ => signed_cookie(&sec, b"{\"not\":\"a cookie\"}"),
+        });
+    }
+    // a session cookie that cannot be read (an older format, somebody else's object, cut off): the client did present
+    // one - whatever happens to the connection, it must not be handed a new one
+    let mut unreadable_session = false;
+    if rng.chance(1, 10) {
+        unreadable_session = true;
+        client.session_cookie = Some((*rng.pick(&[&b"{\"id\":\"62d78889-9263-b791-7f8f-2869d5a4a969\",\"server_address\":\"earlier\"}"[..], b"{\"session\":42}", b"{\"id\":\"62d78889-9263-b791-7f8f-2869d5a4a969\",\"server_addr", b"\x00\x01\x02garbage"])).to_vec());
     }
     let verdict = match rng.below(3) {
         0 => AuthRes::Claim,
@@ -100,6 +122,7 @@ fn generate(rng: &mut Rng) -> C10Sc {
         present_session: rng.chance(3, 4),
         second_expiry: if rng.chance(1, 5) { Some(*rng.pick(&[0u64, 1, 60, 3600, u64::MAX])) } else { None },
         second_think_ns: *rng.pick(&[0u64, 0, ms(1), ms(250), ms(999), ms(1500)]),
+        unreadable_session,
     };
     // one in ten: the profile is padded so that the issued cookie is just below / at / just above 5000 and 5120 bytes
     // (what a vanilla client can store and present again)
@@ -192,6 +215,13 @@ pub fn check(sc: &C10Sc, o1: &ConnOutcome, s2: &ConnScenario, o2: &ConnOutcome, 
             rep.violate("stream_decodes", format!("{w}: {u}"));
             return;
         }
+    }
+    if sc.unreadable_session {
+        // presented one (however unreadable): no new session cookie, routed or not; nothing else is judged
+        if session_store_cookie(o1).is_some() {
+            rep.violate("session_cookie_only_when_absent", format!("the client presented a session cookie the server could not read and was handed a new one (result {} {})", o1.result, o1.result_text));
+        }
+        return;
     }
     let transfer1 = o1.view.first("Transfer");
     if transfer1.is_none() || o1.result != "Ok" {
@@ -307,7 +337,13 @@ impl Check for C10 {
     }
     fn execute(&self, sc: &C10Sc) -> RunReport {
         let c = &sc.first.client;
-        if !conn_domain_ok(&sc.first) || !matches!(c.intent, 2 | 3) || c.script.is_some() || !c.mutations.is_empty() || !matches!(c.enc, crate::client::EncVariant::Honest) || !c.send_info || c.auth_cookie.is_some() || !transport_is_zero_time(&sc.first) {
+        if !conn_domain_ok(&sc.first) || !matches!(c.intent, 2 | 3) || c.script.is_some() || !c.mutations.is_empty() || !matches!(c.enc, crate::client::EncVariant::Honest) || !c.send_info || !transport_is_zero_time(&sc.first) {
+            return RunReport::default();
+        }
+        // a cookie on the first connection only if it is one that must be refused (fresh authentication is this check's subject)
+        if cookie_accepted(c.intent, sc.first.cfg.secret.as_deref(), c.auth_cookie.as_deref(), &sc.first.cfg.client_addr, sc.first.wall.base_s, expiry_of(&sc.first)).is_some()
+            || cookie_accepted(c.intent, sc.first.cfg.secret.as_deref(), c.auth_cookie.as_deref(), &sc.first.cfg.client_addr, sc.first.wall.base_s + 100_000, expiry_of(&sc.first)).is_some()
+        {
             return RunReport::default();
         }
         // the first connection must be one that gets routed (the shrinker may take its targets away)
